@@ -34,7 +34,7 @@ Definition ev_faults (e : event) : faults :=
   | Register _ _ _ _ _ fs | Start _ fs | AddCheck _ fs | AddCommit _ fs | Verify _ fs | Remove _ fs
   | MonFire _ fs | MonFail _ fs | Write _ _ _ fs | Sync fs | Unmap fs | Read _ _ _ fs
   | Snapshot _ fs | Resize _ fs => fs
-  | SetMode _ _ => []
+  | SetMode _ _ | SyncData _ => []
   end.
 
 (** ** C02: ack only after a strict majority of the attached replicas applied it; laggards detached *)
@@ -140,9 +140,10 @@ Definition c18_step (rf0 : nat) (quiescent : bool) (prev : obs) (e : event) (cur
   && Nat.leb (length (o_replicas cur)) rf0
   && Nat.leb (length (wo_of (o_replicas cur))) 1
   && (if quiescent then Nat.eqb (o_rwc cur) (count_rw (o_replicas cur)) else true)
+  (* only replicas in service (listed and not marked failed) receive calls *)
   && (match e with
       | Write _ _ _ _ | Sync _ | Unmap _ | Read _ _ _ _ | Snapshot _ _ | Resize _ _ =>
-          forallb (fun a => if mem a (addrs_of (o_replicas prev)) then true else same_reps prev cur a)
+          forallb (fun a => if mem a (in_service (o_replicas prev)) then true else same_reps prev cur a)
                   (seq 0 (length (o_reps prev)))
       | _ => true
       end).
@@ -152,9 +153,13 @@ Definition chain_of (o : obs) (a : addr) : list nat :=
   match rep_of o a with Some r => o_chain r | None => [] end.
 Definition c13_step (rf0 : nat) (quiescent : bool) (prev : obs) (e : event) (cur : obs) : bool :=
   (match e with
-   | Snapshot n _ =>
+   | Snapshot n fs =>
        (* refused, touching nobody, unless all rf replicas are RW *)
-       if Nat.eqb (count_rw (o_replicas prev)) rf0 && Nat.eqb (length (o_replicas prev)) rf0 then true
+       if Nat.eqb (count_rw (o_replicas prev)) rf0 && Nat.eqb (length (o_replicas prev)) rf0
+       then (* taken: on every replica that did not fail it (same point of the write stream: one event) *)
+            if is_ack cur
+            then forallb (fun a => if flt fs a KSnap then true else mem n (chain_of cur a)) (addrs_of (o_replicas prev))
+            else true
        else negb (is_ack cur) && untouched prev cur
    | _ => true
    end)
@@ -283,7 +288,7 @@ Fixpoint bad_cases (i : nat) (cs : list xcase) : list (nat * (nat * nat) * list 
 (** coverage flags per case, from the model's run:
     1 a write acknowledged with a failing minority, 2 an I/O refused for lack of quorum, 4 a read failed over,
     8 a start signal sent, 16 a checkpoint set, 32 a replica promoted by verify, 64 a monitor fired,
-    128 a failed operation (any), 256 three or more replicas attached at some point *)
+    128 a failed operation (any), 256 three or more RW replicas at some point *)
 Definition b2n (b : bool) (k : nat) : nat := if b then k else 0%nat.
 Fixpoint flags_walk (n : nat) (s : cst) (es : list event) (acc : nat * nat * nat * nat * nat * nat * nat * nat * nat)
   : nat * nat * nat * nat * nat * nat * nat * nat * nat :=
@@ -302,7 +307,7 @@ Fixpoint flags_walk (n : nat) (s : cst) (es : list event) (acc : nat * nat * nat
          Nat.max f6 (b2n (match e with Verify _ _ => ack && Nat.ltb (count_rw (replicas s)) (count_rw (replicas s1)) | _ => false end) 32),
          Nat.max f7 (b2n (match e with MonFire _ _ | MonFail _ _ => ack | _ => false end) 64),
          Nat.max f8 (b2n (res_eqb r RErr) 128),
-         Nat.max f9 (b2n (Nat.leb 3 (length (replicas s1))) 256)) in
+         Nat.max f9 (b2n (Nat.leb 3 (count_rw (replicas s1))) 256)) in
       flags_walk n s1 t acc'
   end.
 Definition case_flags (x : xcase) : nat :=
